@@ -122,9 +122,9 @@ directive @recurse(depth: Int!) on FIELD
 directive @fold on FIELD
 directive @transform(op: String!) repeatable on FIELD
 type RootSchemaQuery { Item(limit: Int = 2): [Item!]  Special: Special }
-interface Item { name: String  size: Int!  tags: [String!]!  related(limit: Int! = 3, prefix: String): [Item!]  parent(kind: String = "x", depth: Int): Item  plain: Item }
-type Plain implements Item { name: String  size: Int!  tags: [String!]!  related(limit: Int! = 3, prefix: String): [Item!]  parent(kind: String = "x", depth: Int): Item  plain: Item }
-type Special implements Item { name: String  size: Int!  tags: [String!]!  related(limit: Int! = 3, prefix: String): [Item!]  parent(kind: String = "x", depth: Int): Special  plain: Item  extra: Float  flags(only: [Boolean!] = [true], ratio: Float = 1.5): [Special!]! }
+interface Item { name: String  size: Int!  tags: [String!]!  related(limit: Int! = 3, prefix: String): [Item!]  parent(kind: String = "x", depth: Int): Item  plain: Item  byIds(ids: [Int!], names: [[String]]): [Item!] }
+type Plain implements Item { name: String  size: Int!  tags: [String!]!  related(limit: Int! = 3, prefix: String): [Item!]  parent(kind: String = "x", depth: Int): Item  plain: Item  byIds(ids: [Int!], names: [[String]]): [Item!] }
+type Special implements Item { name: String  size: Int!  tags: [String!]!  related(limit: Int! = 3, prefix: String): [Item!]  parent(kind: String = "x", depth: Int): Special  plain: Item  byIds(ids: [Int!], names: [[String]]): [Item!]  extra: Float  flags(only: [Boolean!] = [true], ratio: Float = 1.5): [Special!]! }
 "#;
 #[derive(Clone, Debug)]
 struct SchemaDriven { schema: Arc<Schema> }
